@@ -8,6 +8,7 @@ pub mod c04;
 pub mod c05;
 pub mod c06;
 pub mod c07;
+pub mod c08;
 pub mod c09;
 pub mod c10;
 pub mod c11;
@@ -37,6 +38,7 @@ pub fn lookup(id: &str) -> Option<Entry> {
         "C05" => Entry { id: "C05", run: c05::run, replay: c05::replay },
         "C06" => Entry { id: "C06", run: c06::run, replay: c06::replay },
         "C07" => Entry { id: "C07", run: c07::run, replay: c07::replay },
+        "C08" => Entry { id: "C08", run: c08::run, replay: c08::replay },
         "C09" => Entry { id: "C09", run: c09::run, replay: c09::replay },
         "C10" => Entry { id: "C10", run: c10::run, replay: c10::replay },
         "C11" => Entry { id: "C11", run: c11::run, replay: c11::replay },
